@@ -353,7 +353,41 @@ def r06_8(chk):
     chk.floor("R06.8", 4, "yield sites of three parsers")
 
 
+def r06_9(chk):
+    chk.rule("R06.9", "GenBank bytes parser: records are split on the line-anchored terminator b'\\n//'; because that separator begins with the newline of the previous line, every later piece starts with a newline -- the piece is left-trimmed before its first line (LOCUS) is taken, and the guard that skips the piece after the last terminator also covers the empty piece (`not piece`, not just piece.isspace())")
+    from ..cfg import build
+
+    m = chk.repo.module("parse/genbank.py")
+    fns = [f for f in m.tree.body if isinstance(f, ast.FunctionDef) and f.name == "_" and any("iter_genbank_records.register" in norm(d) for d in f.decorator_list) and f.args.args and f.args.args[0].annotation is not None and norm(f.args.args[0].annotation) == "bytes"]
+    if not fns:
+        raise AnalysisError("iter_genbank_records bytes overload not found")
+    fn = fns[0]
+    loops = [f for f in walk_no_nested(fn) if isinstance(f, ast.For) and isinstance(f.iter, ast.Call) and isinstance(f.iter.func, ast.Attribute) and f.iter.func.attr == "split" and isinstance(f.target, ast.Name)]
+    if not loops:
+        raise AnalysisError("iter_genbank_records[bytes]: split loop not found")
+    lp = loops[0]
+    folded = try_fold(lp.iter.args[0]) if lp.iter.args else (False, None)
+    sep = folded[1] if folded[0] else None
+    k0 = key(m, "iter_genbank_records[bytes]", "terminator line-anchored")
+    chk.decide(isinstance(sep, bytes) and sep.startswith(b"\n") and sep.lstrip() == b"//", "R06.9", k0, m.loc(lp), f"split on {sep!r}", f"records are split on {sep!r}: '//' inside a line (a URL in a comment) would end the record")
+    var = lp.target.id
+    g = build(fn)
+    trims = [n for n in g.nodes if n.kind == "stmt" and isinstance(n.ast, ast.Assign) and norm(n.ast.targets[0]) == var and isinstance(n.ast.value, ast.Call) and isinstance(n.ast.value.func, ast.Attribute) and n.ast.value.func.attr in ("strip", "lstrip") and norm(n.ast.value.func.value) == var and not n.ast.value.args]
+    # uses of the piece that look at its first line / split it further
+    uses = [n for n in g.nodes_containing(lambda x: isinstance(x, ast.Call) and isinstance(x.func, ast.Attribute) and x.func.attr in ("split", "find", "index", "partition", "splitlines") and norm(x.func.value) == var) if not (n.kind == "loop" and n.ast is lp)]
+    if not uses:
+        raise AnalysisError("iter_genbank_records[bytes]: no use of the record piece found")
+    for u in uses:
+        okd = bool(trims) and g.dominated_by(u, trims)[0]
+        chk.decide(okd, "R06.9", key(m, "iter_genbank_records[bytes]", f"piece left-trimmed before `{norm(u.ast)[:50]}`"), m.loc(u.ast), "dominated by piece = piece.lstrip()", "the piece is used as it comes out of the split: every record after the first starts with a newline, so its first line is empty (a file with two records raises IndexError)")
+    guards = [n for n in g.nodes if n.kind == "if" and any(isinstance(c, ast.Continue) for c in n.ast.body) and var in {x.id for x in ast.walk(n.ast.test) if isinstance(x, ast.Name)}]
+    covers_empty = any(norm(n.ast.test) in (f"not {var}", f"not {var}.strip()", f"len({var}) == 0") or (isinstance(n.ast.test, ast.BoolOp) and any(norm(v) in (f"not {var}", f"not {var}.strip()") for v in n.ast.test.values)) for n in guards)
+    chk.decide(covers_empty, "R06.9", key(m, "iter_genbank_records[bytes]", "empty last piece skipped"), m.loc(guards[0].ast) if guards else m.loc(lp), "`if not piece: continue`", f"the skip guard is {[norm(n.ast.test) for n in guards] or 'missing'}: b''.isspace() is False, so a file ending in '//' without a final newline raises ValueError")
+    chk.floor("R06.9", 3, "terminator, trim, empty guard")
+
+
 def run(chk):
+    r06_9(chk)
     r06_8(chk)
     r06_1(chk)
     r06_6(chk)
